@@ -40,7 +40,7 @@ def eval_chunk(chunk, module, open_devs, timeout=1800, extra=""):
     return r, fails
 
 
-def live_devs(check, vh, module, known_devs, extra="", driver="drive-schema"):
+def live_devs(check, vh, module, known_devs, extra="", driver="drive-schema", report=True):
     """A listed deviation is honoured only while its witness input still fails on the current tree."""
     if not known_devs:
         return {}
@@ -53,7 +53,8 @@ def live_devs(check, vh, module, known_devs, extra="", driver="drive-schema"):
     for k, name in enumerate(names):
         if any(f["l"] == k + 1 for f in fails):
             live[name] = known_devs[name]
-            check.known(name, known_devs[name]["text"])    # the listed finding still reproduces on this tree
+            if report:
+                check.known(name, known_devs[name]["text"])    # the listed finding still reproduces on this tree
         else:
             common.log("[known] witness of %s no longer fails: deviation not honoured" % name)
     return live
